@@ -492,7 +492,9 @@ pub async fn check_message(s: &mut Session, bytes: &[u8], prefer_text: bool, obs
 		(_, Some(_)) => http.status == 200,
 	};
 	obs.check(status_ok, "c01/http-status", || format!("{} => status {} body {}", shown(), http.status, String::from_utf8_lossy(&http.body)));
-	let is_batch = class == Class::Batch;
+	// (a message the server takes for a batch - also one outside the judged domain, e.g. a form feed in front of `[` -
+	// is answered by an array; arrays are C02's business)
+	let is_batch = class == Class::Batch || (matches!(class, Class::Outside(_)) && bytes.iter().find(|b| !b.is_ascii_whitespace()) == Some(&b'['));
 	for (which, r) in [("ws", &ws_reply), ("http", &http_reply)] {
 		if let Some(v) = r {
 			if !is_batch || !v.is_array() {
